@@ -34,11 +34,11 @@ META = dict(
 )
 
 QUICK = dict(
-    prod=[("Mocks.fifo.cfg", "fifo"), ("Mocks.inter.cfg", "interleaved"), ("Mocks.part.cfg", "partitioner"), ("Mocks.rets.cfg", "return_successes_off")],
+    prod=[("Mocks.fifo.cfg", "fifo"), ("Mocks.inter.cfg", "interleaved"), ("Mocks.part.cfg", "partitioner"), ("Mocks.topics.cfg", "topic_config"), ("Mocks.rets.cfg", "return_successes_off")],
     cons=[("MocksCons.edges.cfg", "consumer_edges", 1), ("MocksCons.paths.cfg", "consumer_paths", 4)],
 )
 THOROUGH = dict(
-    prod=[("Mocks.fifobig.cfg", "fifo"), ("Mocks.interbig.cfg", "interleaved"), ("Mocks.partbig.cfg", "partitioner"), ("Mocks.rets.cfg", "return_successes_off")],
+    prod=[("Mocks.fifobig.cfg", "fifo"), ("Mocks.interbig.cfg", "interleaved"), ("Mocks.partbig.cfg", "partitioner"), ("Mocks.topicsbig.cfg", "topic_config"), ("Mocks.rets.cfg", "return_successes_off")],
     cons=[("MocksCons.edgesbig.cfg", "consumer_edges", 1), ("MocksCons.pathsbig.cfg", "consumer_paths", 4)],
 )
 
